@@ -97,13 +97,18 @@ def analyse(ck):
         okn = len(ne) == want
         if fn == "ensure_artifact_bytes_match_canonical" and okn:
             # raw slice inequality between the caller's bytes and the canonical serialization (whole slices: length AND content)
-            sides = []
+            # by position, not by parameter name: parameter 1 (the common bytes) against to_bytes of parameter 3's `.common`,
+            # parameter 2 (the verifier-only bytes) against to_bytes of parameter 3's `.verifier_only`
+            seen = set()
             for g in ne:
                 op, x, y = guards.reject_condition(g)
-                sides.append({P.param_path(x) or T.show(x, maxdepth=3), P.param_path(y) or T.show(y, maxdepth=3)})
-            exp = [{"common_bytes"}, {"verifier_only_bytes"}]
-            okn = all(any(e <= s for s in sides) for e in exp) and all(any("to_bytes" in z for z in s) for s in sides)
-            okn = okn and all("canonical" in " ".join(s) for s in sides)
+                for a_, b_ in ((P.norm(x), P.norm(y)), (P.norm(y), P.norm(x))):
+                    for k_, fld_ in ((1, "common"), (2, "verifier_only")):
+                        if a_ == mv.param(k_):
+                            tb = [s_ for s_ in T.walk(b_) if (P.call_name(s_) or "").endswith("::to_bytes") and s_[4]]
+                            if any(P.norm(s_[4][0]) == ("fld", mv.param(3), fld_) for s_ in tb):
+                                seen.add(k_)
+            okn = seen == {1, 2}
         if fn == "ensure_verifier_data_matches_canonical" and okn:
             sub = mv.calls(lambda t: t.get("name") == "ensure_common_matches_canonical")
             okn = len(sub) == 1 and guards.continue_block(mv.body, sub[0][0]) is not None
